@@ -106,6 +106,9 @@ func _src(tokens []Token, baseUrl string) (pr.InnerContent, error) {
 		token := tokens[len(tokens)-1]
 		tokens = tokens[:len(tokens)-1]
 		if fn, ok := token.(pa.FunctionBlock); ok && utils.AsciiLower(fn.Name) == "format" {
+			if len(tokens) == 0 { // format() without a preceding url()
+				return nil, nil
+			}
 			token = tokens[len(tokens)-1]
 		}
 		if fn, ok := token.(pa.FunctionBlock); ok && utils.AsciiLower(fn.Name) == "local" {
